@@ -427,7 +427,8 @@ def rule_sibling(ctx):
 
 
 # 'accepted by the library's own parser and read back unchanged' needs registry closure and constructor symmetry
-IMPORTS = [('C03', 'C03.REG'), ('C03', 'C03.SYM')]
+# a definition is sent (and read back) whatever it contains: no message may be falsy where its truthiness is tested
+IMPORTS = [('C03', 'C03.REG'), ('C03', 'C03.SYM'), ('C02', 'C02.TRUTHY')]
 
 _META_SRC = '''
 from indi.device import Driver, properties
